@@ -2809,7 +2809,7 @@ BOOST_PP_REPEAT(BOOST_PP_ADD(BOOST_MSM_VISITOR_ARG_SIZE,1), MSM_VISITOR_ARGS_EXE
          static void do_entry(library_sm* self_,Event const& incomingEvent)
          {
              self_->m_states[region_id::value] =
-                 self_->m_history.history_entry(incomingEvent)[region_id::value];
+                 self_->m_history.history_entry(remove_direct_entry_event_wrapper(incomingEvent))[region_id::value];
              region_entry_exit_helper
                  < ::boost::mpl::int_<region_id::value+1> >::do_entry(self_,incomingEvent);
          }
